@@ -29,6 +29,9 @@ def check(repo: Repo, rep, tier):
     configure(repo, rep)
     driver_isolate(repo, rep)
     fresh_state(repo, rep)
+    diff_exact(repo, rep)
+    tests_per_file(repo, rep)
+    collect_all(repo, rep)
     from .C03 import import_only
 
     import_only(repo, rep)
@@ -250,3 +253,108 @@ def fresh_state(repo: Repo, rep):
                 else:
                     rep.ok("R-FRESH-STATE", f, a.ast, "new context = State()")
     rep.floor("R-FRESH-STATE", "rebinding of the current state", n, 1)
+
+
+def diff_exact(repo: Repo, rep):
+    rep.rule(
+        "R-DIFF-EXACT",
+        "SourceFile.diff() compares the texts as they are: the lines handed to the diff come from `.splitlines()` of the old and the new text with no "
+        "normalisation (strip / rstrip / lower / replace / expandtabs ...).  pytest_sessionfinish uses the diff as its 'is there anything to apply' test while "
+        "run_inline does not; a change that the diff no longer shows (trailing blank inside a triple-quoted snapshot) is applied by one driver and silently "
+        "dropped by the other",
+    )
+    f = repo.find_func("_rewrite_code.py", "SourceFile.diff")
+    if f is None:
+        rep.undecided("R-DIFF-EXACT", "SourceFile.diff not found")
+        return
+    NORMALISERS = ("strip", "rstrip", "lstrip", "lower", "upper", "casefold", "replace", "expandtabs", "translate", "sub")
+    # what is handed to the diff function (directly, or through locals defined in diff())
+    inputs = []
+    for c in body_nodes(f.node):
+        if isinstance(c, ast.Call) and norm(c.func).split(".")[-1] in ("unified_diff", "ndiff", "context_diff", "SequenceMatcher"):
+            inputs += list(c.args) + [k.value for k in c.keywords]
+    seen_names = set()
+    work = list(inputs)
+    while work:
+        e = work.pop()
+        for x in ast.walk(e):
+            if isinstance(x, ast.Name) and x.id not in seen_names:
+                seen_names.add(x.id)
+                for a in body_nodes(f.node):
+                    if isinstance(a, ast.Assign) and any(isinstance(t, ast.Name) and t.id == x.id for t in a.targets):
+                        inputs.append(a.value)
+                        work.append(a.value)
+    norms = [c for e in inputs for c in ast.walk(e) if isinstance(c, ast.Call) and isinstance(c.func, ast.Attribute) and c.func.attr in NORMALISERS]
+    if not inputs:
+        rep.undecided("R-DIFF-EXACT", "no diff function call found in SourceFile.diff")
+        return
+    if norms:
+        rep.violation("R-DIFF-EXACT", f, norms[0], f"SourceFile.diff normalises the compared lines with `{short(norms[0], 50)}`: a change it hides is not offered / applied by pytest_sessionfinish although run_inline writes it", construct="diff-normalised")
+    else:
+        rep.ok("R-DIFF-EXACT", f, f.node, "the diff compares the exact old and new lines")
+
+
+def tests_per_file(repo: Repo, rep):
+    rep.rule(
+        "R-DRIVER-PER-FILE",
+        "Example.run_inline runs, for each test file, the test functions of THAT file once: the collection that the test-call loop iterates over is bound "
+        "afresh inside the loop over the files (a plain assignment there), not grown (`+=`, extend, append) from a list created outside it - otherwise the "
+        "tests of earlier files run again after every later file and tests with module-level state record other values than under pytest",
+    )
+    from ..model import ancestors
+
+    f = repo.func("testing/_example.py::Example.run_inline")
+    n = 0
+    for lp in [x for x in body_nodes(f.node) if isinstance(x, ast.For) and isinstance(x.target, ast.Name)]:
+        v = lp.target.id
+        if not any(isinstance(c, ast.Call) and isinstance(c.func, ast.Name) and c.func.id == v and not c.args for c in ast.walk(lp)):
+            continue
+        if not isinstance(lp.iter, ast.Name):
+            continue
+        n += 1
+        coll = lp.iter.id
+        file_loops = [a for a in ancestors(lp) if isinstance(a, ast.For) and a is not lp]
+        if not file_loops:
+            rep.ok("R-DRIVER-PER-FILE", f, lp, "tests are not run inside a loop over files")
+            continue
+        fl = file_loops[0]
+        inside = [a for a in ast.walk(fl) if isinstance(a, ast.Assign) and any(isinstance(t, ast.Name) and t.id == coll for t in a.targets)]
+        grows = [a for a in ast.walk(fl) if (isinstance(a, ast.AugAssign) and isinstance(a.target, ast.Name) and a.target.id == coll) or (isinstance(a, ast.Call) and isinstance(a.func, ast.Attribute) and a.func.attr in ("extend", "append") and isinstance(a.func.value, ast.Name) and a.func.value.id == coll)]
+        if inside and not grows:
+            rep.ok("R-DRIVER-PER-FILE", f, lp, f"`{coll}` is bound afresh for every file")
+        else:
+            rep.violation("R-DRIVER-PER-FILE", f, (grows[0] if grows else lp), f"the list `{coll}` of test functions is {'grown across' if grows else 'not re-bound for'} the files while the loop that calls them runs once per file: the tests of earlier files are executed again, a test with module-level state records values a real session never sees", construct="tests-accumulate")
+    rep.floor("R-DRIVER-PER-FILE", "test-call loops in run_inline", n, 1)
+
+
+def collect_all(repo: Repo, rep):
+    rep.rule(
+        "R-COLLECT-ALL",
+        "both drivers ask EVERY snapshot of the state for its changes: in the loop over `<state>.snapshots.values()` the call of `_changes()` is reached on "
+        "every iteration (no `continue` / condition in front of it).  A filter in one driver - e.g. 'skip snapshots that recorded nothing' - drops exactly the "
+        "never-compared snapshots, whose only changes are updates, from the plugin while run_inline still rewrites them",
+    )
+    from ..cfg import reach as _reach
+
+    for k in DRIVERS:
+        f = repo.func(k)
+        cfg = cfg_of(f)
+        loops = [n for n in cfg.live if n.kind == "for" and norm(n.ast.iter).endswith("snapshots.values()")]
+        if not loops:
+            # comprehension form: unconditional unless it has an `if`
+            comps = [c for c in body_nodes(f.node) if isinstance(c, (ast.ListComp, ast.GeneratorExp, ast.SetComp)) and any(norm(g.iter).endswith("snapshots.values()") for g in c.generators)]
+            if comps and not any(g.ifs for c in comps for g in c.generators):
+                rep.ok("R-COLLECT-ALL", f, comps[0], "comprehension over all snapshots, no filter")
+            elif comps:
+                rep.violation("R-COLLECT-ALL", f, comps[0], f"{f.qualname} filters the snapshots whose changes are collected", construct=f"{f.qualname}:filter")
+            else:
+                rep.undecided("R-COLLECT-ALL", f"loop over the snapshots not found in {f.qualname}")
+            continue
+        for lp in loops:
+            calls = [n for n in cfg.live for c in node_calls(n) if isinstance(c.func, ast.Attribute) and c.func.attr == "_changes"]
+            calls += [n for n in cfg.live if n.kind == "for" and any(isinstance(c, ast.Call) and isinstance(c.func, ast.Attribute) and c.func.attr == "_changes" for c in ast.walk(n.ast.iter))]
+            r = _reach(cfg, [b for b, l in lp.succ if l == "iter"], blocked_nodes=calls, skip_labels=("exc",))
+            if lp in r:
+                rep.violation("R-COLLECT-ALL", f, lp.ast, f"an iteration of the loop over the snapshots in {f.qualname} can skip `_changes()`: the changes of some snapshots (e.g. the updates of never-compared ones) are neither reported nor applied by this driver", construct=f"{f.qualname}:skip")
+            else:
+                rep.ok("R-COLLECT-ALL", f, lp.ast, "every snapshot is asked for its changes")
